@@ -28,8 +28,24 @@ class _PredicateDefaults(defaultdict):
         return self.default_factory()
 
 
+def equal_json_values(x, y):
+    """Compare two values for equality, keeping json scalar types apart.
+
+    In Python True == 1 == 1.0, but true, 1 and 1.0 are different json
+    values, so a diff that ignores the change can not reproduce the target.
+    Containers are compared with ==, their items are compared again when
+    the diff recurses into them.
+    """
+    if x != y:
+        return False
+    for number_type in (bool, float):
+        if isinstance(x, number_type) != isinstance(y, number_type):
+            return False
+    return True
+
+
 def default_predicates():
-    return _PredicateDefaults(lambda: (operator.__eq__,))
+    return _PredicateDefaults(lambda: (equal_json_values,))
 
 
 def default_differs():
@@ -240,7 +256,7 @@ def diff_dicts(a, b, path="", config=None):
                 raise RuntimeError(
                     "Found predicate(s) for path {} pointing to dict entry.".format(
                         path or '/'))
-            if avalue != bvalue:
+            if not equal_json_values(avalue, bvalue):
                 di.replace(key, bvalue)
 
     for key in sorted(bkeys - akeys):
